@@ -194,6 +194,38 @@ def negative(draw, max_feats):
     return {"model": base["model"], "text": text, "labels": [kind], "expect": "error", "edit": kind}
 
 
+MUT_ALPHABET = list("()[]{}<>=!&|,.'\"+-*/ \t\n:;#$@^~`%?_0a") + ["=>", "<=>", "..", "features", "constraints", "mandatory",
+                                                                    "or", "cardinality", "true", "//", "/*", "*/"]
+
+
+@st.composite
+def mutated(draw, max_feats):
+    """A valid emitted document with 1-3 random character-level edits (delete / insert / replace / duplicate a
+    line).  Most of them break the syntax somewhere the hand-made edits do not reach; the raw parser decides."""
+    base = draw(positive(max_feats))
+    text = base["text"]
+    for _ in range(draw(st.integers(1, 3))):
+        if not text:
+            break
+        i = draw(st.integers(0, len(text) - 1))
+        how = draw(st.sampled_from(["delete", "insert", "replace", "swap", "dup-line"]))
+        tok = draw(st.sampled_from(MUT_ALPHABET))
+        if how == "delete":
+            text = text[:i] + text[i + 1:]
+        elif how == "insert":
+            text = text[:i] + tok + text[i:]
+        elif how == "replace":
+            text = text[:i] + tok + text[i + 1:]
+        elif how == "swap" and i + 1 < len(text):
+            text = text[:i] + text[i + 1] + text[i] + text[i + 2:]
+        else:
+            lines = text.split("\n")
+            k = draw(st.integers(0, len(lines) - 1))
+            lines.insert(k, lines[k])
+            text = "\n".join(lines)
+    return {"model": base["model"], "text": text, "labels": ["mutation"], "expect": "error-if-invalid", "edit": "mutation"}
+
+
 def check(case):
     from flamapy.metamodels.fm_metamodel.transformations import UVLReader
     out = []
@@ -204,6 +236,16 @@ def check(case):
         with open(p, "w", encoding="utf-8", newline="") as fh:
             fh.write(text)
         got = lib(lambda: UVLReader(p).transform())
+    if case["expect"] == "error-if-invalid":
+        if not (lex_err or par_err):
+            # still valid (its meaning is unknown): the reader must not crash with a non-library error while
+            # building the model from a syntactically valid document
+            if isinstance(got, Raised) and got.label.split("@")[0] not in ("FlamaException", "ParsingException"):
+                out.append((f"C04.valid-mutated-document-crashes:{got.label}", got.text))
+            return out
+        if not isinstance(got, Raised):
+            out.append(("C04.syntax-error-accepted:mutation", f"raw parser: {(lex_err + par_err)[:2]}"))
+        return out
     if case["expect"] == "error":
         relevant = lex_err if case["edit"] == "illegal-char" else par_err
         if not relevant:
@@ -240,6 +282,8 @@ def check(case):
 
 def _status(case):
     lex_err, par_err = uvl_raw.strict_errors(case["text"])
+    if case["expect"] == "error-if-invalid":
+        return "negative-kept" if (lex_err or par_err) else "mutation-still-valid"
     if case["expect"] == "error":
         relevant = lex_err if case["edit"] == "illegal-char" else par_err
         return "negative-kept" if relevant else "negative-dropped"
@@ -255,7 +299,7 @@ def nontrivial(case):
 
 def classes(case):
     out = {_status(case)}
-    if case["expect"] == "error":
+    if case["expect"] in ("error", "error-if-invalid"):
         out.add("edit:" + case["edit"])
         if "negative-kept" in out:
             out.add("kept:" + case["edit"])
@@ -266,6 +310,8 @@ def classes(case):
 
 
 SUBS = [
+    Sub("mutations", check, gen=lambda tier: mutated(6), nontrivial=nontrivial, classes=classes,
+        n={"quick": 40, "thorough": 1500}, essential=["negative-kept"]),
     Sub("positive", check, gen=lambda tier: positive(20 if tier == "thorough" else 10), nontrivial=nontrivial,
         classes=classes, n={"quick": 60, "thorough": 1000},
         essential=["positive-kept", "surface:several-children-under-one-keyword", "surface:quoted-plain-identifier",
